@@ -189,6 +189,11 @@ class M(Model):
             return None
         return -self._route_length(self._xy(s), h), 1e-5 * 2 * self.N
 
+    def twin_applicable(self, ep):
+        # "same return on the same trajectory of legal actions": plans may contain raw (possibly invalid)
+        # actions; an episode cut short by an invalid move is not an all-legal trajectory
+        return self.objective(ep) is not None
+
     # ------------------------------------------------------------------ C09
     def predict(self, s, a):
         a = int(a)
